@@ -222,25 +222,37 @@ def validate(ctx, traces):
         ctx.finding(t["skipped"], f"(recorded) TdlChannelProfile for taps {t['prof']} (Ts {t['ts']:g}) raised {t['exc']}",
                     {"kind": "trace", "job": {"id": t["id"], "seed": t["seed"]}})
     traces = [t for t in traces if "skipped" not in t and t["ev"]]
-    fd, path = tempfile.mkstemp(prefix="c03-traces-", suffix=".json", dir=tlc.WORK if os.path.isdir(tlc.WORK) else None)
-    with os.fdopen(fd, "w") as f:
-        json.dump([_tlc_view(t) for t in traces], f)
-    try:
-        cfg, defs = _cfg()
-        r = tlc.run(TRACE_MODULE, cfg, defs=defs, env={"TRACE_FILE": path}, continue_=True, workers=1, heap="1500m")
-    finally:
-        os.unlink(path)
-    if r.violated not in (None, "Conforms"):
-        raise tlc.TlcError(f"Trace_Tdl: the specification's own law {r.violated} fails on a recorded trace:\n{r.trace_text[:2000]}")
-    ctx.account(r, TRACE_MODULE, "recorded traces", expect_violation=r.violated)
-    want_states = sum(len(t["ev"]) + 1 for t in traces)
+    from concurrent.futures import ThreadPoolExecutor
+    from . import c03
+    chunk = 500
+    chunks = [traces[q:q + chunk] for q in range(0, len(traces), chunk)]
+
+    def one(ts):
+        fd, path = tempfile.mkstemp(prefix="c03-traces-", suffix=".json", dir=tlc.WORK if os.path.isdir(tlc.WORK) else None)
+        with os.fdopen(fd, "w") as f:
+            json.dump([_tlc_view(t) for t in ts], f)
+        try:
+            cfg, defs = _cfg()
+            return tlc.run(TRACE_MODULE, cfg, defs=defs, env={"TRACE_FILE": path}, continue_=True, workers=1, heap="1500m")
+        finally:
+            os.unlink(path)
+    with ThreadPoolExecutor(max(1, min(c03.TLC_PAR, len(chunks)))) as ex:
+        runs = list(ex.map(one, chunks))
     bad = {}
-    for m in r.emitted:
-        bad.setdefault(int(m["tid"]), m)
-    if r.violated and not bad:
-        raise tlc.TlcError("Trace_Tdl: Conforms violated but no mismatch was emitted")
-    if not bad and r.distinct < want_states:
-        raise tlc.TlcError(f"Trace_Tdl explored {r.distinct} states, the traces have {want_states}")
+    for ci, (ts, r) in enumerate(zip(chunks, runs)):
+        if r.violated not in (None, "Conforms"):
+            raise tlc.TlcError(f"Trace_Tdl: the specification's own law {r.violated} fails on a recorded trace:\n{r.trace_text[:2000]}")
+        ctx.account(r, TRACE_MODULE, "recorded traces", expect_violation=r.violated)
+        want_states = sum(len(t["ev"]) + 1 for t in ts)
+        b = {}
+        for m in r.emitted:
+            b.setdefault(int(m["tid"]), m)
+        if r.violated and not b:
+            raise tlc.TlcError("Trace_Tdl: Conforms violated but no mismatch was emitted")
+        if not b and r.distinct < want_states:
+            raise tlc.TlcError(f"Trace_Tdl explored {r.distinct} states, the traces have {want_states}")
+        for tid, m in b.items():
+            bad[ci * chunk + tid] = m
     nev = 0
     seen = set()
     for i, t in enumerate(traces):
